@@ -161,6 +161,30 @@ def main():
     if hasattr(P, "extra_checks"):
         extra = P.extra_checks(tier, rng, variants, broken, failing) or {}
 
+    # 6b. a proof obligation / the tie broke but no case of this tier fails: widen the search for a concrete
+    #     failing input to the thorough generators (code vs Spec/Impl), before reporting no-failing-input-found
+    widened = 0
+    if (broken or model_only) and not failing and tier == "quick" and not args.replay and driver_ok:
+        try:
+            more = [c for c in P.gen("thorough", cx.Rng(seed + 1)) if c[0] not in set(lines)]
+        except Exception as e:  # noqa
+            more = []
+            notes.append(f"thorough generator failed during widened search: {e}")
+        if more:
+            mlines = [c[0] for c in more]
+            mouts = {}
+            for v in variants:
+                mouts["code:" + v] = cx.run_exec([cx.harness_bin(v), "run"], mlines)
+            mouts["impl"] = cx.run_exec([cx.CXDRV, "impl"], mlines)
+            mouts["spec"] = cx.run_exec([cx.CXDRV, "spec"], mlines)
+            for i, (line, kind) in enumerate(more):
+                row = {k: o[i] for k, o in mouts.items()}
+                verdict = cmp_fn(line, kind, row) if cmp_fn else default_compare(row, variants)
+                if verdict[0] == "fail":
+                    failing.append({"line": line, "kind": kind, "answers": row, "why": verdict[1]})
+            widened = len(more)
+            cx.log(f"[{prop}] widened search: {widened} thorough-tier cases, failing={len(failing)}")
+
     # 7. verdict
     viol_lines = []
     kf_lines = []
@@ -184,7 +208,7 @@ def main():
         rp = write_replay(prop, "tie", {"property": prop, "kind": "broken-obligation", "seed": seed, "tier": tier,
                                         "broken_obligations": broken, "model_disagreements": model_only[:20],
                                         "cases": [{"line": m["line"], "kind": m["kind"]} for m in model_only[:20]],
-                                        "searched_cases": len(cases),
+                                        "searched_cases": len(cases) + widened,
                                         "how": "cd lean && lake build " + " ".join(mods)})
         viol_lines.append(f"VIOLATION property={prop} replay={rp} no-failing-input-found")
         status = 1
